@@ -46,14 +46,14 @@ def produce(tier, seed, which):
     pb = 2 if tier == "quick" else 3
     jobs = []
     for i, f in enumerate(files):
-        jobs.append(("pb", exes[0], f, ["--pb", str(pb), "--max-exec", "10000" if tier == "quick" else "60000"], "pb_%d" % i))
+        jobs.append(("pb", exes[0], f, ["--pb", str(pb), "--max-exec", "10000" if tier == "quick" else "30000"], "pb_%d" % i))
     # the same bounded search with every protected-field access a scheduling point, on the scenarios with
     # in-place edits (a reader overlapping a half-done edit of a key array / child count: seed c09d)
     fscs = [s for s in scs if scenarios.fine_grained(s)] if tier == "quick" else scs
     fd = os.path.join(d, "fine")
     os.makedirs(fd, exist_ok=True)
     for i, f in enumerate(scenarios.write_chunks(fscs, fd, 2 * vlib.NCPU)):
-        jobs.append(("pb_fine", exes[0], f, ["--pb", "2", "--fine", "--max-exec", "4000" if tier == "quick" else "40000"], "pf_%d" % i))
+        jobs.append(("pb_fine", exes[0], f, ["--pb", "2", "--fine", "--max-exec", "4000" if tier == "quick" else "15000"], "pf_%d" % i))
     # random schedules: dbg build at field granularity, ASan build at segment granularity
     rn = 150 if tier == "quick" else 3000
     for i, f in enumerate(files):
